@@ -623,7 +623,7 @@ CORPUS_URLS = [
     "https://www.facebook.com/nasa/photos/xa./5",
     # 7e5e990 (formerly KF-C19-FB-4): the host test of convert_facebook_url_to_mobile ignores case
     "HTTP://WWW.FACEBOOK.COM/nasa", "FaceBook.com/nasa", "https://M.FACEBOOK.com/nasa?x=1",
-    # FX-C19-FB5 (formerly KF-C19-FB-5): a segment that ends with a blank, at the end of the canonical url
+    # FX-C19-d672644 (formerly KF-C19-FB-5): a segment that ends with a blank, at the end of the canonical url
     "https://www.facebook.com/a /b", "https://www.facebook.com/ /a", "https://www.facebook.com/x/posts/5 /y",
     "https://www.facebook.com/groups/nasa /x", "https://www.facebook.com/nasa/videos/5 /", "https://www.facebook.com/people/a/5 /b",
     # ... and blanks that survived before the fix: in front, inside, at the end of a field that does not end the url
@@ -650,7 +650,7 @@ ROUTES = ["watch", "videos", "photo.php", "photo", "photos", "posts", "permalink
 SEGS_QUICK = ROUTES + ["1234567890", "12", "nasa", "a.123", "", "x.php", "a..b", "9" * 40]
 SEGS_EXTRA = ["watchme", "peoplex", "Groups", "a.", "aa..", ".", "..", "a;", "a b", "n%20sa", "1234_5678", "é", "x" * 70, "nasa ", " nasa", " ",
               "5 "]
-# blanks around id-like / handle-like segments (FX-C19-FB5, formerly KF-C19-FB-5): every path of 1-3 segments
+# blanks around id-like / handle-like segments (FX-C19-d672644, formerly KF-C19-FB-5): every path of 1-3 segments
 SEGS_BLANK = ["nasa", "1234567890", "nasa ", " nasa", " ", "5 ", "groups", "posts", "videos", "photos", "a.1", "permalink", "people"]
 # ... and the other str.isspace characters, around and inside: every path of 1-3 segments with one of them
 SEGS_UBLANK = ["nasa\xa0", "\u3000nasa", "5\x1f", "\x0b1234567890\u2028", "\x85", "na\u2003sa", " a.1\x1c"]
